@@ -364,4 +364,7 @@ def run(tier):
                       '{TextLinesCursor, BufferCursor} x {lineinfo, lineat, poscol}; (b) 7 named-rule grammars (flat, nested, alias, token rule, '
                       'lists, backtracking/memo hits, left recursion) x all texts over {a,b,space,LF} up to 4/5 (+8 with CR/CRLF) with parseinfo on')
     ck.cov['exhaustive'] = True
+    # history independence over a pool of public-API calls: every response must be the one the call gets alone in a fresh interpreter
+    from .. import historypool as _hp
+    _hp.check_pool(ck, _hp.pool_c12(), 'line information after other texts and an #include', spec='LinePos!Laws (whatever was handled before)', orders=2 if tier == 'quick' else 6)
     return ck.finish()
